@@ -41,10 +41,21 @@ ALLOWED = {
 }
 
 
+JW = "proxy_agent_shared::misc_helpers::json_write_to_file"
+# the shared file writer is itself analysed (what it returns - in particular its error text - goes back to the caller, which puts
+# it into status messages and logs): inside it, writing / rendering its argument is its purpose; who may hand it a Key is still
+# decided at the call site (only store_local_key)
+ALLOWED[("file", JW)] = "json_write_to_file writes its argument to the file it was asked to write (callers are checked at their call site)"
+ALLOWED[("serialize", JW)] = "json_write_to_file renders its argument in order to write it (callers are checked at their call site)"
+
+
 def sink_kind(caller, callee, term):
     b = q.base_name(callee)
     for kind, rx in SINK_PATTERNS:
         if rx.search(b):
+            if b.endswith("::misc_helpers::json_write_to_file") or kind == "serialize":
+                # report the sink AND keep propagating: the rendered text / the writer's result stay tainted for what follows
+                return (kind, None, True)
             return kind
     return None
 
@@ -92,6 +103,25 @@ def run(F, R, tier):
                         if fld == "key" and owner.split("<")[0].strip().lstrip("&").replace("mut ", "") == KEY:
                             readers.setdefault(fid, []).append(s["line"])
                             seeds.setdefault(fid, []).append((s["lhs"]["l"], taint.place_path(s["lhs"])))
+    # a whole Key handed to a serialiser is a read of Key::key as well: the reference given to json_write_to_file::<Key> /
+    # serde_json::to_*::<Key> is a source, so whatever that call hands back (the rendered text, an error text quoting the content
+    # that could not be written) is followed like the field itself. The temporary reference is seeded, not the Key binding - reads of
+    # the other fields (guid for the file name) stay clean.
+    for fid, fn in F.fns.items():
+        if fn["crate"] not in ("azure_proxy_agent", "proxy_agent_shared") or "_serde::" in fid:
+            continue
+        for bi, blk in enumerate(fn["blocks"]):
+            t = blk["term"]
+            if blk["cleanup"] or t["k"] != "call" or "fn" not in t["f"]:
+                continue
+            b_ = q.base_name(t["f"].get("resolved") or t["f"]["fn"])
+            if not (b_.endswith("misc_helpers::json_write_to_file") or b_.startswith("serde_json::to_")):
+                continue
+            if not any(g.get("head") == KEY for g in t["f"].get("fnargs", [])):
+                continue
+            ai = 1 if b_.startswith("serde_json::to_writer") else 0
+            if len(t["args"]) > ai and t["args"][ai].get("k") in ("copy", "move") and not t["args"][ai]["p"].get("p"):
+                seeds.setdefault(fid, []).append((t["args"][ai]["p"]["l"], ()))
     allowed_readers = {
         "<%s as std::clone::Clone>::clone" % KEY: "derived Clone",
         "<%s as std::cmp::PartialEq>::eq" % KEY: "derived comparison",
